@@ -255,82 +255,11 @@ pub fn generate(seed: u64, tier: Tier) -> Case {
                 // copy referring to its own module's items.
                 let host = *rng.pick(&closed.iter().copied().collect::<Vec<_>>());
                 let k = p.modules.len();
-                let mut twin = p.modules[host].clone();
-                twin.path = vec![format!("twin{k}_of_{}", p.modules[host].path.last().unwrap())];
+                let mut path = vec![format!("twin{k}_of_{}", p.modules[host].path.last().unwrap())];
                 if rng.chance(1, 2) {
-                    twin.path.insert(0, format!("z{k}"));
+                    path.insert(0, format!("z{k}"));
                 }
-                twin.deleted = false;
-                // Clone the items and point references inside the module at the clones.
-                let originals: Vec<usize> = (0..p.items.len())
-                    .filter(|i| p.items[*i].module == host)
-                    .collect();
-                let base = p.items.len();
-                let remap = |i: usize| -> usize {
-                    match originals.iter().position(|o| *o == i) {
-                        Some(pos) => base + pos,
-                        None => i,
-                    }
-                };
-                fn retarget(ty: &mut Ty, remap: &dyn Fn(usize) -> usize) {
-                    match ty {
-                        Ty::Item(i) => *i = remap(*i),
-                        Ty::ConstPtr(t) | Ty::MutPtr(t) | Ty::Array(t, _) => retarget(t, remap),
-                        _ => {}
-                    }
-                }
-                let retarget_fn = |f: &mut crate::project::Func, remap: &dyn Fn(usize) -> usize| {
-                    for (_, t) in f.args.iter_mut() {
-                        retarget(t, remap);
-                    }
-                    if let Some(t) = &mut f.ret {
-                        retarget(t, remap);
-                    }
-                };
-                let mut clones = vec![];
-                for &o in &originals {
-                    let mut it = p.items[o].clone();
-                    it.module = k;
-                    match &mut it.kind {
-                        ItemKind::Type {
-                            fields,
-                            vftable,
-                            impl_funcs,
-                            ..
-                        } => {
-                            for f in fields.iter_mut() {
-                                retarget(&mut f.ty, &remap);
-                            }
-                            if let Some(v) = vftable {
-                                for f in v.funcs.iter_mut() {
-                                    retarget_fn(f, &remap);
-                                }
-                            }
-                            for f in impl_funcs.iter_mut() {
-                                retarget_fn(f, &remap);
-                            }
-                        }
-                        ItemKind::Enum { base, .. } => retarget(base, &remap),
-                        ItemKind::Extern { .. } => {}
-                    }
-                    if let Some(vs) = &mut it.vslots {
-                        for f in vs.iter_mut() {
-                            retarget_fn(f, &remap);
-                        }
-                    }
-                    clones.push(it);
-                }
-                p.items.extend(clones);
-                for d in twin.order.iter_mut() {
-                    match d {
-                        Decl::Item(i) | Decl::Impl(i) => *i = remap(*i),
-                        _ => {}
-                    }
-                }
-                for ev in twin.extern_values.iter_mut() {
-                    retarget(&mut ev.ty, &remap);
-                }
-                p.modules.push(twin);
+                crate::project::add_twin_module(&mut p, host, path);
                 notes.push("edit:add_twin_of_closure_module".to_string());
             }
             7 => {
